@@ -28,3 +28,4 @@ def run(ctx):
     lib_py.unused_params(ctx, py, mods=("trees",), only=ps)
     lib_py.kw_forward(ctx, py, mods=("trees",), only=ps)
     lib_py.null_index(ctx, py)
+    lib_mem.c_lints(ctx, ctx.program(), scopes.lib_scope("C06"))
